@@ -1,23 +1,9 @@
 #!/bin/bash
-# Must-fail corpus: applies every seeded change under /verif/seeded to /repo in turn, runs the quick check of the
-# property it breaks (or the properties given in meta.json "detect_with"), reverts, and prints one line per seed.
-# usage: run_all.sh [seed name prefix]
+# Must-fail corpus: every seeded change under /verif/seeded is applied to its own scratch worktree under /tmp, the quick
+# check of the property it breaks (or the properties in meta.json "detect_with") is run against that copy, and the copy is
+# removed. /repo's working tree is never touched. usage: run_all.sh [seed name prefix] ; JOBS=n (default 4)
 cd /verif
-git -C /repo diff --quiet || { echo "repo dirty"; exit 2; }
-PASS=0; FAIL=0
-for d in /verif/seeded/${1:-}*/; do
-  s=$(basename $d)
-  [ -f $d/patch.diff ] || continue
-  props=$(python3 -c "import json;m=json.load(open('$d/meta.json'));print(' '.join(m.get('detect_with',[m['property']])))")
-  if ! git -C /repo apply --check $d/patch.diff 2>/dev/null; then echo "SELFTEST $s SKIP patch-does-not-apply (superseded)"; continue; fi
-  git -C /repo apply $d/patch.diff
-  det=""
-  for p in $props; do
-    ./check $p quick > /tmp/selftest.$$.log 2>&1; rc=$?
-    if [ $rc -eq 1 ] && grep -q "^VIOLATION property=$p" /tmp/selftest.$$.log; then det="$det $p"; fi
-  done
-  git -C /repo apply -R $d/patch.diff; git -C /repo checkout -- . 2>/dev/null
-  if [ -n "$det" ]; then echo "SELFTEST $s DETECTED by$det"; PASS=$((PASS+1)); else echo "SELFTEST $s MISSED (checked: $props)"; FAIL=$((FAIL+1)); fi
-done
-rm -f /tmp/selftest.$$.log
-echo "SELFTEST summary detected=$PASS missed=$FAIL"
+JOBS=${JOBS:-4}
+ls -d /verif/seeded/${1:-}*/ | xargs -n1 basename | xargs -P "$JOBS" -I{} /verif/selftest/run_seed.sh {} 2>&1 | grep '^SELFTEST' | sort | tee /tmp/selftest.$$.out
+echo "SELFTEST summary detected=$(grep -c ' DETECTED ' /tmp/selftest.$$.out) missed=$(grep -c ' MISSED ' /tmp/selftest.$$.out) skipped=$(grep -c ' SKIP ' /tmp/selftest.$$.out)"
+rm -f /tmp/selftest.$$.out
